@@ -60,6 +60,31 @@ def reduced_alphabet(T):
     return sig
 
 
+def forward_alphabet(T):
+    """symbols with several same-name leaves (the only ones `forward` can address) plus the first leaf of every choice
+    branch (the symbols that commit a choice); None if the type has no multi-leaf symbol"""
+    m = leaf_multiplicity(T)
+    M = {a for a, c in m.items() if c > 1}
+    if not M:
+        return None
+    h = set()
+
+    def heads(p):
+        if p[0] == 'el':
+            return
+        if p[0] == 'cho':
+            for k in p[1]:
+                q = k
+                while q[0] != 'el' and q[1]:
+                    q = q[1][0]
+                if q[0] == 'el':
+                    h.add(q[1])
+        for k in p[1]:
+            heads(k)
+    heads(R.content_model(T))
+    return [a for a in nfa(T).alphabet if a in M or a in h]
+
+
 def rename_map(T):
     """full symbol -> its R1 representative (nearest kept member of its run)"""
     p = R.content_model(T)
@@ -92,6 +117,56 @@ def rename_map(T):
     return out
 
 
+def _r1_signature(T, hist, ren=None):
+    st = build(T, [('A', a) for a in hist])
+    ok = [o.brief() for o in st.outcomes]
+    s = impl.serialise(st.el)
+    names = [c.name for c in st.el.get_children(ordered=True)]
+    if ren:
+        names = [ren.get(n, n) for n in names]
+    return (tuple(ok), s[0] if s[0] == 'ok' else (s[0], s[1]), tuple(names))
+
+
+def r1_invariance(T):
+    """rule R1 is an assumption: check it at depth <= 2 with the FULL alphabet - every history of additions must
+    have the same outcomes as its image under the renaming symbol -> representative (where the renaming is injective
+    on the history).  returns (instances checked, list of failing histories)"""
+    full = nfa(T).alphabet
+    red = reduced_alphabet(T)
+    if len(full) == len(red):
+        return 0, []
+    ren = rename_map(T)
+    fails = []
+    n = 0
+    import itertools
+    for k in (1, 2):
+        for h in itertools.product(full, repeat=k):
+            if all(a in red for a in h):
+                continue
+            img = tuple(ren.get(a, a) for a in h)
+            if len(set(img)) != len(set(h)):
+                continue
+            n += 1
+            if _r1_signature(T, h, ren) != _r1_signature(T, img):
+                fails.append(list(h))
+    return n, fails
+
+
+def r1_prepare():
+    """run the R1 invariance check for all types (parallel); a type that fails falls back to its full alphabet.
+    returns evidence dict"""
+    from mc import core
+    res = core.pmap(r1_invariance, impl.TYPES)
+    total = 0
+    fallback = {}
+    for T, (n, fails) in zip(impl.TYPES, res):
+        total += n
+        if fails:
+            fallback[T] = fails[:3]
+            _sigma_cache[T] = list(nfa(T).alphabet)
+    return {'r1_instances_checked': total, 'r1_types_falling_back_to_full_alphabet': fallback}
+
+
 _multi_leaf = {}
 
 
@@ -113,6 +188,7 @@ PROFILES = {
     'fail': ('A', 'F', 'R', 'Xs', 'P', 'X', 'At', 'S'),
     'ser': ('A', 'F', 'R', 'Xs', 'P', 'Sc', 'S'),
     'norem': ('A', 'F', 'Ps', 'S'),
+    'fwd': ('A', 'F', 'R', 'S'),
 }
 
 _bad_attr = {}
@@ -175,6 +251,7 @@ def ops_for(T, names, model_idx, profile, sigma, foreign=None):
     if 'X' in kinds:
         f = foreign or 'fifths'
         ops += [('Ax', 'foreign', f), ('Ax', 'nonelement'), ('Ax', 'none'), ('Rx', 'detached', f), ('Rx', 'none'),
+                ('Rx', 'others', sigma[0]),
                 ('Px', 'old-missing', f), ('Px', 'new-bad')]
         for a in sigma[:1]:
             ops.append(('Fx', a, 99))
@@ -218,7 +295,7 @@ class Spec:
         self.check, self.child_mode, self.max_depth, self.el_name = check, child_mode, max_depth, el_name
         self.sigma = sigma if sigma is not None else reduced_alphabet(T)
         self.foreign = pick_foreign(T)
-        self.key = '%s/%s' % (T, profile)
+        self.key = '%s/%s%s' % (T, profile, '' if check else '!unchecked')
 
 
 CHUNK = 60
@@ -323,7 +400,7 @@ def run_bfs(specs, factories):
     out = {}
     for key, d in S.items():
         sp = d['spec']
-        out[key] = {'T': sp.T, 'profile': sp.profile, 'depth': d['depth'], 'states': len(d['seen']),
+        out[key] = {'T': sp.T, 'profile': sp.profile + ('' if sp.check else '!unchecked'), 'depth': d['depth'], 'states': len(d['seen']),
                     'transitions': d['transitions'] + d['closing'], 'per_level': d['per_level'],
                     'capped_by_budget': d['capped'], 'sigma': len(sp.sigma), 'sigma_full': len(nfa(sp.T).alphabet),
                     'frontier_left': len(d['frontier']), 'vio': d['vio'], 'ostats': dict(d['ostats'])}
